@@ -65,9 +65,6 @@ type seqRun struct {
 	gone      [2]map[int]string // why a CID last left asked: cancel / full-replace / disconnect / delivered
 	oblig     [2]map[int]bool   // accepted wants for an absent block with send_dont_have that still wait for any answer
 	squeezed  [2]map[int]bool   // classification aid: wants whose task was dropped by a push into a full task queue
-	orphan    [2]map[int]bool   // classification aid: CIDs with a queued task but no want-list entry on the server
-	goneOrph  [2]map[int]bool   // ... and whether that was so when the peer cancelled the want
-	fullDrop  [2]map[int]bool   // classification aid: CIDs that a full want-list message of the peer dropped (not restated) earlier
 	connected [2]bool
 	deleted   [nCids]bool // removed from the store by a del operation
 	req       <-chan *decision.Envelope
@@ -108,9 +105,6 @@ func (x *seqRun) Main() {
 		x.gone[i] = map[int]string{}
 		x.oblig[i] = map[int]bool{}
 		x.squeezed[i] = map[int]bool{}
-		x.orphan[i] = map[int]bool{}
-		x.goneOrph[i] = map[int]bool{}
-		x.fullDrop[i] = map[int]bool{}
 	}
 	x.w = newWorld(x.cfg)
 	vsched.WaitIdle()
@@ -199,7 +193,6 @@ func (x *seqRun) step(op string) {
 		x.asked[r] = map[int]want{}
 		x.oblig[r] = map[int]bool{}
 		x.squeezed[r] = map[int]bool{}
-		x.fullDrop[r] = map[int]bool{}
 		x.connected[r] = false
 		for _, h := range x.held {
 			if h.role == r {
@@ -309,12 +302,7 @@ func (x *seqRun) judge(env *decision.Envelope) {
 		}
 		return "never-asked"
 	}
-	srv := w.ledger(r) // MessageSent has not run yet: wants answered by this envelope are still listed
-	extra := func(c int, kv ...string) []string {
-		_, listed := srv[c]
-		return append(kv, "on_server_wantlist", fmt.Sprint(listed), "dropped_by_full_message_earlier", fmt.Sprint(x.fullDrop[r][c]),
-			"task_without_wantlist_entry_at_cancel", fmt.Sprint(why(c) == "cancel" && x.goneOrph[r][c]))
-	}
+	extra := func(c int, kv ...string) []string { return kv }
 	whyOrStill := func(c int) string {
 		if _, ok := x.asked[r][c]; ok {
 			return "still-wanted"
@@ -448,17 +436,8 @@ func (x *seqRun) recv(r int, spec string) {
 	x.connected[r] = true
 	prevAsked := x.asked[r] // for the sticky flags of wants that a full message restates
 	if ms.full {
-		restated := map[int]bool{}
-		for _, e := range merged {
-			if !e.cancel {
-				restated[e.c] = true
-			}
-		}
 		for c := range x.asked[r] {
 			x.gone[r][c] = "full-replace"
-			if !restated[c] {
-				x.fullDrop[r][c] = true
-			}
 		}
 		prevAsked = x.asked[r]
 		x.asked[r] = map[int]want{}
@@ -474,7 +453,6 @@ func (x *seqRun) recv(r int, spec string) {
 		if e.cancel {
 			if _, ok := x.asked[r][e.c]; ok {
 				x.gone[r][e.c] = "cancel"
-				x.goneOrph[r][e.c] = x.orphan[r][e.c]
 			}
 			delete(x.asked[r], e.c)
 			if e.c != cI && e.c != cO {
@@ -551,7 +529,7 @@ func (x *seqRun) recv(r int, spec string) {
 		case ms.full:
 			reason = "replaced-by-this-full-message"
 		}
-		x.fail(eng.V("wantlist-stale-entry", "MessageReceived", fmt.Sprintf("want-list of p%d contains %s after MessageReceived(%s): %s -> %s", r+1, cname(c), spec, fmtLedger(pre), fmtLedger(post)), feat("stale_because", reason, "message_without_entries", fmt.Sprint(len(merged) == 0))...))
+		x.fail(eng.V("wantlist-stale-entry", "MessageReceived", fmt.Sprintf("want-list of p%d contains %s after MessageReceived(%s): %s -> %s", r+1, cname(c), spec, fmtLedger(pre), fmtLedger(post)), feat("stale_because", reason)...))
 	}
 	// classification of this message's effect
 	var admitted, rejected, evicted, oldSurvivors []int
@@ -675,25 +653,6 @@ func (x *seqRun) recv(r int, spec string) {
 		}
 	}
 	x.markSqueezed(r, pendBefore+nPushed > L)
-	x.markOrphans(r)
-}
-
-// markOrphans records (classification only) the CIDs of a peer that have a pending task in the
-// request queue although the server's want-list has no entry for them (and the filter permits them).
-func (x *seqRun) markOrphans(r int) {
-	x.orphan[r] = map[int]bool{}
-	t := x.w.e.VerifQueue().VerifTracker(x.w.ids[r])
-	if t == nil {
-		return
-	}
-	l := x.w.ledger(r)
-	for _, q := range t.VerifPending() {
-		c := cidIdx(q.Topic.(cid.Cid))
-		if _, ok := l[c]; !ok && permitted(r, c) {
-			x.orphan[r][c] = true
-			x.count("queued_tasks_without_wantlist_entry")
-		}
-	}
 }
 
 // answerInFlight: an envelope that the receiver holds but has not sent yet already tells the peer about c.
@@ -864,20 +823,6 @@ func (x *seqRun) stateKey() string {
 		}
 		sort.Ints(sq)
 		sb.WriteString(" sq=" + names(sq))
-		var og []int
-		for c, v := range x.goneOrph[r] {
-			if v {
-				og = append(og, c)
-			}
-		}
-		sort.Ints(og)
-		sb.WriteString(" og=" + names(og))
-		var fd []int
-		for c := range x.fullDrop[r] {
-			fd = append(fd, c)
-		}
-		sort.Ints(fd)
-		sb.WriteString(" fd=" + names(fd))
 	}
 	fmt.Fprintf(&sb, "|req=%v held=", x.req != nil)
 	for _, h := range x.held {
